@@ -137,6 +137,8 @@ pub struct PShift {
     pub end: Option<(usize, f64)>,
     pub breaks: Vec<PBreak>,
     pub reloads: Vec<PReload>,
+    /// required breaks with exact times: (earliest start, latest start, duration)
+    pub required_breaks: Vec<(f64, f64, f64)>,
 }
 
 #[derive(Clone, Debug, Default)]
@@ -288,7 +290,8 @@ impl PProblem {
                         if let Some((loc, latest)) = s.end {
                             so.insert("end".into(), json!({"latest": fmt_time(latest), "location": {"index": loc}}));
                         }
-                        if !s.breaks.is_empty() {
+                        if !s.breaks.is_empty() || !s.required_breaks.is_empty() {
+                            let required = s.required_breaks.iter().map(|(e, l, d)| json!({"time": {"earliest": fmt_time(*e), "latest": fmt_time(*l)}, "duration": d}));
                             let breaks: Vec<Value> = s
                                 .breaks
                                 .iter()
@@ -303,6 +306,7 @@ impl PProblem {
                                     }
                                     json!({"time": [fmt_time(b.time.0), fmt_time(b.time.1)], "places": [Value::Object(place)]})
                                 })
+                                .chain(required)
                                 .collect();
                             so.insert("breaks".into(), json!(breaks));
                         }
